@@ -429,15 +429,22 @@ def run_property(prop_id: str, tier: str, seed_value: int) -> int:
     nt_all = set(reg_nt)
     for m in merged.values():
         nt_all.update(m['nt'])
+    def _sample(c):
+        # very large cases (a shipped language specification) are abbreviated in the evidence file
+        txt = canon(c)
+        if len(txt) <= 30000:
+            return c
+        return {'abbreviated': True, 'size_chars': len(txt), 'sha1': case_hash(c), 'head': txt[:3000]}
+
     samples = []
     for cname, m in merged.items():
         for c in m['samples_nt'][:1]:
-            samples.append({'clause': cname, 'nontrivial': True, 'case': c})
+            samples.append({'clause': cname, 'nontrivial': True, 'case': _sample(c)})
     for cname, m in merged.items():
         for c in m['samples_triv'][:1]:
             if len(samples) < 6:
-                samples.append({'clause': cname, 'nontrivial': False, 'case': c})
-    samples += [dict(s, regression=True) for s in reg_samples]
+                samples.append({'clause': cname, 'nontrivial': False, 'case': _sample(c)})
+    samples += [dict(s, case=_sample(s['case']), regression=True) for s in reg_samples]
     clauses_ev = {}
     exhaustive_all = bool(merged) and all(c.kind == 'exhaustive' for c in mod.CLAUSES)
     for clause in mod.CLAUSES:
